@@ -21,6 +21,10 @@ CLAIMS = {
   text="(1) the CanTransitionTo relation and message-target maps of all five protocol state machines are REGENERATED on every run by running the real code on the complete finite domain (verif export hooks) into Generated/States.lean; Lean `decide` theorems over the generated tables: every allowed transition is an edge of the published graph (Spec/C09), terminal states have no outgoing transition, no transition switches role, every message target is a declared state. (2) engine theorems for any table within the graph: the states announced by one execution loop form a path (chain_isPath, any Execute behaviour / fuel), a message not allowed in the current state is rejected without change (reject_noop), terminal states are never left by a message (terminal_absorbing), a stale parked callback is dropped (stale_callback_dropped). (3) correspondence: seeded and guided message sequences against the real present-proof and issue-credential services (v2+v3; every message type, duplicates, out-of-order, every continue option / stop) - the compiled engine model predicts accept/reject, announced post-states and persisted state exactly, and the Lean oracle checks path validity of what the implementation announced",
   note="trusted: Lean kernel; allowed axioms; export hooks (state lists are written in the hook files); hand-written Execute tables ppExec/icExec (validated by correspondence); didexchange / connection / introduce decided at table level only; a general invariant theorem over parked histories is not proved (open finding C09-F2 shows it is false for issue-credential)",
   technique="regenerated transition tables + Lean decide obligations + engine lemmas + trace correspondence"),
+ "C20": dict(
+  text="Lean 4 theorems about the model of requirementlogic.go / applyRequirement / Match as written: for every requirement tree (all / pick count min max, nested), every descriptor list and every matching predicate, the descriptor subset the holder settles on satisfies the requirement logic and every descriptor in it has a matching credential (C20_holder_sound, via incrementUntilValid_sound / evalSol_sound over any iterator state and fuel), the repaired verifier accepts it (C20_agree), every (descriptor, credential) pair of the descriptor map matches (C20_only_matching), isLenApplicable means what the spec says (lenOK_iff). Tie: correspondence of the real CreateVP -> MarshalJSON -> ParsePresentation -> Match on generated definitions x credential sets with the compiled model (exact descriptor map and verifier result) plus a Lean oracle on the implementation's output (requirement satisfied, pairs match, verifier agrees, and 'no credentials' only when brute force over all descriptor subsets finds no solution)",
+  note="trusted: Lean kernel; allowed axioms; gval/jsonpath + gojsonschema (constraint evaluation is the driver's credMatches for the generator's four filter kinds); iterator completeness is checked per case by brute force (search), not proved; limit_disclosure / SD-JWT / BBS+ credentials not generated",
+  technique="Lean 4 soundness proof of the solution iterator + holder/verifier correspondence"),
 }
 
 def main():
